@@ -54,6 +54,47 @@ func bigDocs() []string {
 	return []string{arr(100), arr(300), obj(70), "[" + arr(70) + "," + arr(3) + ",{\"a\":" + arr(40) + "}]"}
 }
 
+// wideDocs: concrete documents that are wide in containers (more than 5 container-valued members, more than 64 keys).
+func wideDocs() []string {
+	var objs, arrs, keys []string
+	for i := 0; i < 8; i++ {
+		objs = append(objs, fmt.Sprintf("\"m%d\":{\"v\":%d,\"a\":{\"v\":%d}}", i, i, 10+i))
+		arrs = append(arrs, fmt.Sprintf("[%d,{\"v\":%d}]", i, 20+i))
+	}
+	for i := 0; i < 70; i++ {
+		keys = append(keys, fmt.Sprintf("\"k%02d\":%d", (i*37)%70, i))
+	}
+	return []string{"{" + strings.Join(objs, ",") + "}", "[" + strings.Join(arrs, ",") + "]",
+		"{\"a\":{" + strings.Join(objs, ",") + "},\"b\":[" + strings.Join(arrs, ",") + "]}", "{" + strings.Join(keys, ",") + "}"}
+}
+
+// wideDocJobs: reference-evaluator comparison (zzH_Eval, C01 assertions) on the wide concrete documents.
+func wideDocJobs(prefix string, tier string, rng *rand.Rand) []*engine.Job {
+	var jobs []*engine.Job
+	vsteps := []Step{st(".v", "(name v)", "name", false), st(".a", "(name a)", "name", false), {Text: "..v", Ast: "(desc (name v))", Kind: "desc", Multi: true, Depth: 2},
+		st(".*", "(wild)", "wild", true), {Text: "..*", Ast: "(desc (wild))", Kind: "desc", Multi: true, Depth: 2}, st("[*]", "(wild)", "wild", true),
+		{Text: "..[0]", Ast: "(desc (union (i 0)))", Kind: "desc", Multi: true, Depth: 2}, st("[1:]", "(union (s 1 _ _))", "slice", true),
+		filterStep(Expr{Text: "@.v", Ast: "(exists (cur (name v)))"}), {Text: "..[?(@.v)]", Ast: "(desc (filter (exists (cur (name v)))))", Kind: "desc", Multi: true, Depth: 2},
+		st(".b", "(name b)", "name", false), st("[-1]", "(union (i -1))", "index", false)}
+	var ps []Path
+	for _, a := range vsteps {
+		ps = append(ps, mkPath(a))
+		for _, b := range vsteps {
+			ps = append(ps, mkPath(a, b))
+		}
+	}
+	ps = dedupPaths(ps)
+	n := 0
+	for _, p := range ps {
+		for _, d := range wideDocs() {
+			jobs = append(jobs, &engine.Job{ID: fmt.Sprintf("%s-%d", prefix, n), Harness: "zzH_Eval", Fuel: 60_000_000,
+				Params: map[string]string{"path": p.Text, "ast": p.Ast, "holes": "", "config": "", "checks": "C01", "infilter": "0", "json": d}})
+			n++
+		}
+	}
+	return jobs
+}
+
 func bigDocPaths(tier string, rng *rand.Rand) []Path {
 	sp := stepPaths(tier, rng)
 	one := pathsWith(sp, func(p Path) bool { return nSteps(p) == 1 && p.Holes == "" })
@@ -122,6 +163,7 @@ func init() {
 				return false
 			})
 			trav = samplePaths(trav, tierN(tier, 90, 1500), rng)
+			jobs = append(jobs, wideDocJobs("c07wide", tier, rng)...)
 			for i, p := range trav {
 				d := p.Depth
 				if d > 2 {
@@ -141,7 +183,7 @@ func init() {
 		},
 		Bounds: func(tier string) map[string]interface{} {
 			return map[string]interface{}{"unit": fmt.Sprintf("getSortedKeys on every subset of size <= %d of the keys {\"\", a, B, ab, aa, é, z}; every iteration permutation; pooled slice dirty with 0/2/4/6 stale keys; pool LIFO and always-fresh", tierN(tier, 4, 5)),
-				"traversal": "root objects over keys {a,b,c} (nested objects over {a,b}), every permutation at every range site (<= 720 per site)"}
+				"wide documents": "12 step kinds (1- and 2-step paths) on four concrete documents with 8 container-valued members per object/array and with 70 keys, compared with the reference order (map iteration descending)", "traversal": "root objects over keys {a,b,c} (nested objects over {a,b}), every permutation at every range site (<= 720 per site)"}
 		},
 		Stubs:        stateStubs,
 		Assumptions:  append([]string{"sort.StringSlice.Sort sorts byte-wise (host sort on concrete keys)"}, commonAssumptions...),
